@@ -56,6 +56,7 @@ type l22Cfg[
 	KG schnorrlike.KeyGenerator[GE, S], SG schnorrlike.Signer[VR, GE, S, M], VF schnorrlike.Verifier[VR, GE, S, M],
 ] struct {
 	name      string
+	keyName   string // flavour part of finding keys ("" = name)
 	groupName string
 	group     algebra.PrimeGroup[GE, S]
 	mkScheme  func(label string) SCH
@@ -78,6 +79,9 @@ func mkL22[
 	KG schnorrlike.KeyGenerator[GE, S], SG schnorrlike.Signer[VR, GE, S, M], VF schnorrlike.Verifier[VR, GE, S, M],
 ](c l22Cfg[SCH, VR, GE, S, M, KG, SG, VF]) l22Flavour {
 	type sigT = *schnorrlike.Signature[GE, S]
+	if c.keyName == "" {
+		c.keyName = c.name
+	}
 	getShards := func(s *structure, a catalog.IDAssignment, kg proto.C01Keygen) (map[sharing.ID]*lindell22.Shard[GE, S], error) {
 		return cached(fmt.Sprintf("l22|%s|%s|%s|%s", c.groupName, s.e.Name, a.Name, kg), func() (map[sharing.ID]*lindell22.Shard[GE, S], error) {
 			base, err := baseShards(c.groupName, c.group, s, a, kg)
@@ -87,7 +91,9 @@ func mkL22[
 			return proto.C01Lindell22Shards(base)
 		})
 	}
-	leaf := func(x *engine.X, s *structure, a catalog.IDAssignment, kg proto.C01Keygen, api int, msgs []int) {
+	leaf := func(x0 *engine.X, s *structure, a catalog.IDAssignment, kg proto.C01Keygen, api int, msgs []int) {
+		x := newOnce(x0)
+		defer x.flush()
 		where := fmt.Sprintf("lindell22/%s %s ids=%s(%s) keygen=%s api=%s", c.name, s.e.Name, a.Name, idsString(a.IDs), kg, apiNames[api])
 		shards, err := getShards(s, a, kg)
 		if err != nil {
@@ -135,12 +141,12 @@ func mkL22[
 				if api == apiRounds {
 					out, subErr = proto.C01Lindell22Rounds(scheme, shards, quorum, m, seed, label, subs)
 				} else {
-					out = proto.C01Lindell22Run(x, schednet.New(proto.Sorted(quorum)...), scheme, shards, quorum, m, seed, label)
+					out = proto.C01Lindell22Run(x0, schednet.New(proto.Sorted(quorum)...), scheme, shards, quorum, m, seed, label)
 					if out.Info != nil && out.Info.HarnessErr != "" {
 						panic(engine.HarnessError{Msg: out.Info.HarnessErr})
 					}
 				}
-				fk := fmt.Sprintf("lindell22/%s/%s", c.name, apiNames[api])
+				fk := fmt.Sprintf("lindell22/%s/%s", c.keyName, apiNames[api])
 				// (1) termination with an output at every holder that should have one
 				if out.Refused != nil {
 					x.Failf(fk+"/refused-qualified", "%s: a cosigner constructor refused a QUALIFIED quorum: %s", cw, errsString(out.Errs))
@@ -251,9 +257,9 @@ func mkL22[
 				default:
 					out, _ := proto.C01Lindell22Rounds(scheme, shards, set, c.msg(message(1)), seed, label, nil)
 					if len(out.Sigs) > 0 {
-						x.Failf("lindell22/"+c.name+"/unqualified-quorum-signs", "%s: the UNQUALIFIED party set %s obtained a signature (%v)", where, idsString(set), sortedKeys(out.Sigs))
+						x.Failf("lindell22/"+c.keyName+"/unqualified-quorum-signs", "%s: the UNQUALIFIED party set %s obtained a signature (%v)", where, idsString(set), sortedKeys(out.Sigs))
 					} else {
-						x.Failf("lindell22/"+c.name+"/unqualified-quorum-not-refused-at-construction", "%s: every cosigner constructor accepted the UNQUALIFIED party set %s (the run then failed: %s)", where, idsString(set), errsString(out.Errs))
+						x.Failf("lindell22/"+c.keyName+"/unqualified-quorum-not-refused-at-construction", "%s: every cosigner constructor accepted the UNQUALIFIED party set %s (the run then failed: %s)", where, idsString(set), errsString(out.Errs))
 					}
 				}
 			}
@@ -387,7 +393,7 @@ func minaFlavour(nid mina.NetworkID) l22Flavour {
 	ad := libcurve.Pallas()
 	G := sig.PallasGroup()
 	return mkL22(l22Cfg[*mina.Scheme, *mina.Variant, *pasta.PallasPoint, *pasta.PallasScalar, *mina.Message, *mina.KeyGenerator, *mina.Signer, *mina.Verifier]{
-		name: "mina-" + string(nid), groupName: "pallas", group: pasta.NewPallasCurve(),
+		name: "mina-" + string(nid), keyName: "mina", groupName: "pallas", group: pasta.NewPallasCurve(),
 		mkScheme: func(label string) *mina.Scheme {
 			s, err := mina.NewRandomisedScheme(nid, det.New(engine.Seed(), "c01/mina-scheme/"+label))
 			if err != nil {
@@ -490,8 +496,13 @@ func l22Leaves(structs []*structure, plan func(f string, s *structure, a catalog
 }
 
 func l22Body(api int, leaves []l22Leaf) func(*engine.X) {
+	leaves = capLeaves(leaves)
 	return func(x *engine.X) {
-		l := leaves[x.Choose("leaf", len(leaves))]
+		i, ok := slot(x, len(leaves), api == apiRunner)
+		if !ok {
+			return
+		}
+		l := leaves[i]
 		l.f.leaf(x, l.s, l.a, l.kg, api, l.msgs)
 	}
 }
